@@ -455,25 +455,47 @@ def r7_component_writeback(ctx):
             data = next((p for p in f0.positional[1:3] if p in ("check_obj", "obj")), None)
             if data is None:
                 raise AnalysisError(f"{f0.short}: no data parameter")
-            ex = Expander(f.node)
+            from ..util import same_module_helpers
+            from ..cfg import cfg_of as _cfg_of
             stores = []
-            for st in walk_no_nested(f.node):
-                if isinstance(st, ast.Assign):
+            for h in same_module_helpers(ix, f0):
+                hv = f if h is f0 else h
+                # which local names of h denote the working object: the data parameter, or the parameter bound to it at the call
+                roots = {data} if h is f0 else set()
+                if h is not f0:
+                    hp = [a.arg for a in h.node.args.args]
+                    if hp and hp[0] in ("self", "cls"):
+                        hp = hp[1:]
+                    for g in same_module_helpers(ix, f0):
+                        for cl in calls_in(g.node, nested=True):
+                            if callee_last(cl) == h.name:
+                                for k_, a in enumerate(cl.args):
+                                    if isinstance(a, ast.Name) and a.id == data and k_ < len(hp):
+                                        roots.add(hp[k_])
+                                for kw_ in cl.keywords:
+                                    if isinstance(kw_.value, ast.Name) and kw_.value.id == data and kw_.arg:
+                                        roots.add(kw_.arg)
+                if not roots:
+                    continue
+                ex = Expander(hv.node)
+                hcfg = _cfg_of(hv.node)
+                for st in walk_no_nested(hv.node):
+                    if not isinstance(st, ast.Assign):
+                        continue
                     for t in st.targets:
-                        if isinstance(t, (ast.Attribute, ast.Subscript)):
-                            root = t
-                            while isinstance(root, (ast.Attribute, ast.Subscript)):
-                                root = root.value
-                            if isinstance(root, ast.Name) and root.id == data:
-                                src = [x for d in ex.closure(st.value) for x in ast.walk(d) if isinstance(x, ast.Call) and "coerce" in callee_last(x)]
-                                if src:
-                                    guards = []
-                                    ch, p_ = st, parent(st)
-                                    while p_ is not None and p_ is not f.node:
-                                        if isinstance(p_, ast.If) and any(ch is b for b in p_.body):
-                                            guards.append(txt(p_.test))
-                                        ch, p_ = p_, parent(p_)
-                                    stores.append((st, guards))
+                        if not isinstance(t, (ast.Attribute, ast.Subscript)):
+                            continue
+                        root = t
+                        while isinstance(root, (ast.Attribute, ast.Subscript)):
+                            root = root.value
+                        if not (isinstance(root, ast.Name) and root.id in roots):
+                            continue
+                        src = [x for d in ex.closure(st.value) for x in ast.walk(d) if isinstance(x, ast.Call) and "coerce" in callee_last(x)]
+                        if not src:
+                            continue
+                        nd = hcfg.node_of(st)
+                        guards = [txt(tst) for tst, _pol in (hcfg.guards(nd.id) if nd is not None else [])]
+                        stores.append((st, guards))
             stores = [(st, gs) for st, gs in stores if any("coerce" in g for g in gs) or not gs]
             ok = bool(stores)
             ctx.ob("R7", f0, f"{f0.short}: coercion is written back into the working object", ok,
